@@ -72,6 +72,12 @@ def run(tier, seed, replay=None):
                    "Trace_Tree.tla", "Trace_Tree.cfg", N, classify, core.count_lines, timeout=5000, xmx="4g", also=PT)
     r.gen_validate("tree-random-cuts", ["parse", "--c02", "--mode", "random", "--n", 250 if quick else 6000, "--maxpieces", 30, "--chunk", "some"],
                    "Trace_Tree.tla", "Trace_Tree.cfg", N, classify, core.count_lines, timeout=5000, xmx="4g", also=PT)
+    # script pauses at parser level: inputs with script elements (also in SVG and in tables); at each suspension the harness pushes
+    # a string to the front of the input, as document.write does; the tree must be the L0 parser's tree of the text with those
+    # strings written in place
+    r.gen_validate("tree-script-injection", ["parse", "--c02", "--mode", "random", "--inject", "--n", 120 if quick else 4000, "--maxpieces", 10,
+                                             "--chunk", "some"], "Trace_Tree.tla", "Trace_Tree.cfg", N, classify, core.count_lines, timeout=5000,
+                   xmx="4g", also=PT)
     r.assumptions = ["parse errors are compared only between two runs of the same build and options (their wording is html5ever's)",
                      "character-token boundaries legitimately depend on chunking: character data is compared per maximal group, "
                      "with the line reported for the group's last token",
